@@ -122,3 +122,72 @@ Proof.
   intros H Hn. unfold all_dead, final_state. apply all_dead_map_spec. intros l.
   destruct (arun_brun evs [] nothing alive_nil H) as [_ Hs]. rewrite Hs. apply Hn.
 Qed.
+
+(** * the history of one location *)
+(* the real automaton and the abstraction agree on legality, in both directions *)
+Lemma arun_brun_fst evs : forall m a, same (alive m) a ->
+  fst (arun m evs) = fst (brun a evs) /\ (fst (brun a evs) = true -> same (alive (snd (arun m evs))) (snd (brun a evs))).
+Proof.
+  induction evs as [|e t IH]; intros m a H; cbn [arun brun fst snd].
+  - split; [reflexivity|intros _; exact H].
+  - destruct (astep_bstep m a e H) as [H1 H2]. rewrite H1.
+    destruct (fst (bstep a e)) eqn:E; cbn [andb].
+    + destruct (IH _ _ (H2 eq_refl)) as [H3 H4]. split; [exact H3|exact H4].
+    + split; [reflexivity|discriminate].
+Qed.
+
+Lemma lrun_app ts1 : forall b ts2,
+  lrun b (ts1 ++ ts2) = match lrun b ts1 with Some b1 => lrun b1 ts2 | None => None end.
+Proof.
+  induction ts1 as [|t r IH]; intros b ts2; cbn [app lrun]; [reflexivity|].
+  destruct t, b; try reflexivity; apply IH.
+Qed.
+
+Lemma bstep_lrun l a e : fst (bstep a e) = true -> lrun (a l) (ltoks_of l e) = Some (snd (bstep a e) l).
+Proof.
+  assert (Hsrc : forall h, bsrc_ok a h = true -> src_tok l h = [] \/ (src_tok l h = [LR] /\ a l = true)).
+  { intros h Hh. unfold src_tok, bsrc_ok in *. destruct (src_of h) as [s|]; [|left; reflexivity].
+    destruct (loc_eqb_spec s l) as [->|]; [right; split; [reflexivity|exact Hh]|left; reflexivity]. }
+  destruct e as [t h|t h|t|t]; cbn [bstep fst snd ltoks_of]; intros H.
+  - apply andb_prop in H. destruct H as [Ht Hh]. unfold fupd.
+    destruct (loc_eqb_spec t l) as [->|Hne].
+    + destruct (Hsrc h Hh) as [->|[-> Hal]]; cbn [app lrun].
+      * destruct (a l); [discriminate|reflexivity].
+      * rewrite Hal in Ht. discriminate.
+    + rewrite app_nil_r. destruct (Hsrc h Hh) as [->|[-> Hal]]; cbn [lrun]; [reflexivity|rewrite Hal; reflexivity].
+  - apply andb_prop in H. destruct H as [Ht Hh].
+    destruct (loc_eqb_spec t l) as [->|Hne].
+    + destruct (Hsrc h Hh) as [->|[-> Hal]]; cbn [app lrun]; rewrite Ht; reflexivity.
+    + rewrite app_nil_r. destruct (Hsrc h Hh) as [->|[-> Hal]]; cbn [lrun]; [reflexivity|rewrite Hal; reflexivity].
+  - unfold fupd. destruct (loc_eqb_spec t l) as [->|Hne]; cbn [lrun]; [rewrite H|]; reflexivity.
+  - destruct (loc_eqb_spec t l) as [->|Hne]; cbn [lrun]; [rewrite H|]; reflexivity.
+Qed.
+
+Lemma brun_lrun l evs : forall a, fst (brun a evs) = true -> lrun (a l) (lproj l evs) = Some (snd (brun a evs) l).
+Proof.
+  induction evs as [|e t IH]; intros a H; cbn [brun fst snd lproj flat_map] in *; [reflexivity|].
+  apply andb_prop in H. destruct H as [H1 H2].
+  rewrite lrun_app, (bstep_lrun l a e H1). apply IH. exact H2.
+Qed.
+
+Definition nb (b : bool) : nat := if b then 1 else 0.
+
+Lemma lrun_balance ts : forall b b', lrun b ts = Some b' ->
+  nb b + length (filter is_LC ts) = length (filter is_LD ts) + nb b'.
+Proof.
+  induction ts as [|t r IH]; intros b b' H; cbn [lrun filter length] in *.
+  - injection H as <-. lia.
+  - destruct t, b; try discriminate; cbn [is_LC is_LD length]; specialize (IH _ _ H); cbn [nb] in *; lia.
+Qed.
+
+(* a well-formed trace that leaves nothing alive: every location is constructed-into and
+   destroyed alternately, equally often, and only touched while it holds an object *)
+Lemma wf_all_dead_once_each evs : wf_trace evs = true -> all_dead evs = true ->
+  forall l, once_each l evs /\ constructions l evs = destructions l evs.
+Proof.
+  intros Hwf Hdead l. unfold wf_trace in Hwf. unfold all_dead, final_state in Hdead.
+  destruct (arun_brun_fst evs [] nothing alive_nil) as [H1 H2]. rewrite Hwf in H1. symmetry in H1.
+  specialize (H2 H1). pose proof (brun_lrun l evs nothing H1) as HL.
+  rewrite all_dead_map_spec in Hdead. rewrite <- (H2 l), (Hdead l) in HL. change (nothing l) with false in HL.
+  split; [exact HL|]. unfold constructions, destructions. pose proof (lrun_balance _ _ _ HL) as Hb. cbn [nb] in Hb. lia.
+Qed.
